@@ -72,7 +72,8 @@ Lemma expr_ind2 (P : expr -> Prop)
   (HConcat : forall l, Forall P l -> P (EConcat l))
   (HZext : forall w a, P a -> P (EZext w a))
   (HSext : forall w a, P a -> P (ESext w a))
-  (HCall : forall f a, P a -> P (ECall f a)) : forall e, P e.
+  (HCall : forall f a, P a -> P (ECall f a))
+  (HAdd : forall a b, P a -> P b -> P (EAdd a b)) : forall e, P e.
 Proof.
   fix IH 1. intros e. destruct e.
   - apply HConst.
@@ -88,6 +89,7 @@ Proof.
   - apply HZext, IH.
   - apply HSext, IH.
   - apply HCall, IH.
+  - apply HAdd; apply IH.
 Qed.
 
 (* ================================================================================================== *)
@@ -115,6 +117,12 @@ Section Hom.
   Proof.
     intros f1 f2 Hf a. induction a as [|x a IH]; intros b; [reflexivity|].
     destruct b as [|y b]; [reflexivity|]. simpl. rewrite Hf, IH. reflexivity.
+  Qed.
+
+  Lemma add_bits_hom : forall a b c, map h (add_bits B1 bx1 ba1 c a b) = add_bits B2 bx2 ba2 (h c) (map h a) (map h b).
+  Proof.
+    intros a. induction a as [|x a IH]; intros b c; [reflexivity|].
+    destruct b as [|y b]; [reflexivity|]. cbn [add_bits map]. rewrite IH, !h_bx, !h_ba, !h_bx. reflexivity.
   Qed.
 
   Lemma zeros_hom : forall n, map h (zeros_ B1 z1 n) = zeros_ B2 z2 n.
@@ -233,6 +241,7 @@ Section Hom.
     - rewrite <- IHe, take_pad_hom, h_z. reflexivity.
     - rewrite <- IHe, take_pad_hom, <- last_map', h_z. reflexivity.
     - rewrite <- IHe. apply h_call.
+    - rewrite <- IHe1, <- IHe2, <- h_z. apply add_bits_hom.
   Qed.
 
   Lemma exec1_hom : forall st s,
@@ -507,6 +516,7 @@ Fixpoint expr_closed (asg : list nat) (e : expr) : bool :=
   | EZext _ a => expr_closed asg a
   | ESext _ a => expr_closed asg a
   | ECall _ a => expr_closed asg a
+  | EAdd a b => expr_closed asg a && expr_closed asg b
   end.
 
 Fixpoint locals_closed_from (asg : list nat) (p : list stmt) : bool :=
@@ -574,6 +584,8 @@ Section Closed.
     - rewrite IHe by exact Hc. reflexivity.
     - rewrite IHe by exact Hc. reflexivity.
     - rewrite IHe by exact Hc. reflexivity.
+    - apply andb_true_iff in Hc. destruct Hc as [H1 H2].
+      rewrite IHe1, IHe2 by assumption. reflexivity.
   Qed.
 
   Lemma exec_agree : forall p asg m l1 l2, agree_on asg l1 l2 -> locals_closed_from asg p = true ->
@@ -792,6 +804,7 @@ Fixpoint loads_ok (sizes : list nat) (e : expr) : bool :=
   | EZext _ a => loads_ok sizes a
   | ESext _ a => loads_ok sizes a
   | ECall _ a => loads_ok sizes a
+  | EAdd a b => loads_ok sizes a && loads_ok sizes b
   end.
 
 (* the running list of local widths, updated like the local environment of [exec1]
